@@ -24,6 +24,19 @@ CHECKS = {
        "tree vocabulary; the harness's Core constructor (harness/src/corecmd.rs).",
   tech="TLA+ model of printer + Python grammar, TLC round-trip check; TLC judges real printer output parsed by CPython",
   ref="DESIGN.md 9/C10"),
+
+ "C20": dict(
+  text="The full table of the real relation (Name::is_superset_of on a Context built from the spec's user hierarchy; every "
+       "ordered pair of the universe of spec/Types.tla, each query repeated with fresh hash orders and rotated member "
+       "insertion) is loaded by TLC (spec/TypesTable.tla) and every law - reflexive, transitive over all triples, Any top, "
+       "nullable rules, ancestors only, union laws, union commutative/associative/idempotent, order independence - is checked "
+       "on the table itself. spec/MC_Types.tla proves the same laws for the specified relation Sub (R1) and emits the "
+       "universe (R2); agreement of the real relation with Sub is measured as drift.",
+  note="Trusted: harness/src/typescmd.rs builds Name values from type terms through the public API. The relation is taken "
+       "with is_interchangeable = false. Hash orders are sampled by repetition, not forced. Three open known findings "
+       "(KF-C20-1..3) are keyed by clause and type shape.",
+  tech="TLC checks order laws on the recorded table of the real relation (all pairs/triples of a TLA+-defined universe)",
+  ref="DESIGN.md 9/C20"),
 }
 
 PENDING_REASON = "check not built yet in this snapshot (work in progress; see DESIGN.md section 13)"
